@@ -20,7 +20,9 @@
 EXTENDS Integers, Sequences, FiniteSets, TLC
 
 Sources == {"F", "G", "C", "E", "R"}
-Targets == {"scalar", "proto", "struct", "plain", "param"}   \* int / HasConverter class / list subclass / class without converter / List[int]
+Targets == {"scalar", "proto", "struct", "plain", "param", "regparam"}   \* int / HasConverter class / list subclass / class without converter / List[int] /
+                                                                          \* RegBox[int]: a third-party container served by the registered handler, which builds the
+                                                                          \* converter of its argument from the handlers it is given; what is resolved is that argument
 Shapes  == {"field", "list", "opt", "dict", "tuple"}
 Forms   == {"callable", "seq", "map"}
 
@@ -43,11 +45,16 @@ Order == <<"F", "G", "C", "E">>
 FirstLocal(c) == LET S == {i \in DOMAIN Order : Answers(c, Order[i])} IN
                  IF S = {} THEN "" ELSE Order[CHOOSE i \in S : \A j \in S : i <= j]
 Resolve(c) ==
-  IF FirstLocal(c) # "" THEN FirstLocal(c)
+  IF c.target = "regparam" /\ FirstLocal(c) # "F"
+  THEN (IF ~Answers(c, "R") THEN "none"                  \* nobody converts the container
+        ELSE IF FirstLocal(c) # "" THEN FirstLocal(c)     \* custom handlers reach inside the registered type
+        ELSE "B")
+  ELSE IF FirstLocal(c) # "" THEN FirstLocal(c)
   ELSE CASE c.target = "scalar" -> "B"                                   \* scalar built-ins come before registered handlers
          [] c.target = "proto"  -> "P"
          [] c.target \in {"struct", "param"} -> IF Answers(c, "R") THEN "R" ELSE "B"
          [] c.target = "plain"  -> IF Answers(c, "R") THEN "R" ELSE "none"   \* no converter at all: TypeError when built
+         [] c.target = "regparam" -> "F"
 
 HInit == cfg \in Configs
 HNext == FALSE /\ UNCHANGED cfg
@@ -58,5 +65,6 @@ WinnerAnswers == Resolve(cfg) \in {"B", "P", "none"} \/ Answers(cfg, Resolve(cfg
 Monotone == \A i \in DOMAIN Order :
               LET s == Order[i]
                   c2 == [cfg EXCEPT !.present = @ \cup {s}, !.defer = @ \ {s}] IN
-              (c2 \in Configs /\ Answers(c2, s) /\ \A j \in 1..(i - 1) : ~Answers(c2, Order[j])) => Resolve(c2) = s
+              (c2 \in Configs /\ Answers(c2, s) /\ (\A j \in 1..(i - 1) : ~Answers(c2, Order[j]))
+                 /\ (c2.target = "regparam" => s = "F" \/ Answers(c2, "R"))) => Resolve(c2) = s
 =============================================================================
